@@ -129,8 +129,14 @@ type Val struct {
 	Tuple []Val    // multi-value
 	Ptr   *PtrVal  // symbolic address (when not a plain heap Ref)
 	Clo   *Closure // statically known function value
+	CloAlts []CloAlt // function value that is one of several known closures
 	Dyn   types.Type // for interface values built by MakeInterface: the concrete type
 	DynV  *Val       // and the concrete value
+}
+
+type CloAlt struct {
+	Cond *Term
+	Clo  *Closure // nil = nil func
 }
 
 type Closure struct {
